@@ -68,6 +68,9 @@ class ForwardAnalysis(Generic[T], Analysis[T], ABC):
             if not self.eq(val_after, vals_after[bb]):
                 vals_after[bb] = val_after
                 queue.update(bb.successors)
+                # Dummy successors also read our value if unreachable jumps are analysed
+                if self.include_unreachable():
+                    queue.update(bb.dummy_successors)
         return vals_before
 
 
@@ -97,6 +100,9 @@ class BackwardAnalysis(Generic[T], Analysis[T], ABC):
             if not self.eq(vals_before[bb], val_before):
                 vals_before[bb] = val_before
                 queue.update(bb.predecessors)
+                # Dummy predecessors also read our value if unreachable jumps are analysed
+                if self.include_unreachable():
+                    queue.update(bb.dummy_predecessors)
         return vals_before
 
 
